@@ -93,7 +93,7 @@ func c20ReadBack(dir string, p c20Pkg) (q c20Pkg, touched []string) {
 }
 
 func c20CLI(c *Cfg, r *Rng) {
-	n := c.Pick(30, 300)
+	n := c.Pick(30, 120)
 	seeds := c20LoadSeeds()
 	base, err := os.MkdirTemp("", "c20-cli-")
 	if err != nil {
